@@ -99,6 +99,7 @@ func suiteRange(r *Rng, n int, thorough bool, o *Out) {
 		}
 		idPerm := r.Perm(len(idPool))
 		var views []string
+		var allVals []map[string]any
 		for i := 0; i < size; i++ {
 			vals := map[string]any{}
 			for _, k := range sortedKeys(typ.Attrs) {
@@ -119,6 +120,38 @@ func suiteRange(r *Rng, n int, thorough bool, o *Out) {
 			}
 			fill(res, idPool[idPerm[i]], vals)
 			col.Add(res)
+			allVals = append(allVals, vals)
+		}
+		stale := ""
+		if sc, isSC := col.(*jsonapi.SoftCollection); isSC && size > 0 && len(typ.Attrs) > 0 && r.chance(1, 3) {
+			// the collection's type is edited in place after its elements were stored and
+			// read: one attribute gives way to another of another name (same field count);
+			// every element then has the new attribute at its zero value
+			for i := 0; i < sc.Len(); i++ {
+				_ = sc.At(i).Get("id")
+			}
+			an := sortedKeys(typ.Attrs)
+			drop := an[r.IntN(len(an))]
+			na := jsonapi.Attr{Name: "zz", Type: []int{jsonapi.AttrTypeString, jsonapi.AttrTypeInt, jsonapi.AttrTypeBool, jsonapi.AttrTypeBytes}[r.IntN(4)]}
+			sc.Type.RemoveAttr(drop)
+			_ = sc.Type.AddAttr(na)
+			typ = typ.Copy()
+			delete(typ.Attrs, drop)
+			typ.Attrs["zz"] = na
+			for i := 0; i < sc.Len(); i++ {
+				want := newSoft(typ)
+				vs := map[string]any{}
+				for k, v := range allVals[i] {
+					if k != drop {
+						vs[k] = v
+					}
+				}
+				fill(want, idPool[idPerm[i]], vs)
+				if got := sxResView(sc.At(i)); got != sxResView(want) && stale == "" {
+					stale = fmt.Sprintf("FAIL:after the collection's type swapped attribute %s for zz, element %d reads %s, expected %s", drop, i, got, sxResView(want))
+				}
+			}
+			o.stat("col.type-swapped-in-place")
 		}
 		for i := 0; i < col.Len(); i++ {
 			views = append(views, sxResView(col.At(i)))
@@ -256,6 +289,9 @@ func suiteRange(r *Rng, n int, thorough bool, o *Out) {
 				}
 			}
 			o.stat("partition.checked")
+		}
+		if stale != "" {
+			pv = stale
 		}
 		o.emit(op, obs, pv)
 	}
